@@ -48,9 +48,12 @@ fn cut(r: &mut Rng, n: usize) -> Vec<usize> {
     let base = n / k; let mut v = vec![base; k]; v[k - 1] += n - base * k; v
 }
 
-fn gen_tables(r: &mut Rng, o: &Opts) -> (Catalog, String) {
+fn gen_tables(r: &mut Rng, o: &Opts, no_date_x: bool) -> (Catalog, String) {
     let ktys: Vec<ColTy> = o.get("ktys").unwrap_or("i64,i64,i64,str,i32,date").split(',').filter_map(ColTy::parse).collect();
-    let xtys: Vec<ColTy> = o.get("xtys").unwrap_or("i64,i64,i64,str,str,f64").split(',').filter_map(ColTy::parse).collect();
+    let xtys: Vec<ColTy> = o.get("xtys").unwrap_or("i64,i64,i64,i64,str,str,f64,i32,date").split(',').filter_map(ColTy::parse).collect();
+    // a DATE compared with the untyped NULL a scalar subquery yields fails "Cannot coerce Date32 and Null" (an untyped-NULL
+    // defect, not a subquery defect): no DATE operand for the scalar_row form
+    let xtys: Vec<ColTy> = if no_date_x { xtys.into_iter().filter(|t| *t != ColTy::Date).collect() } else { xtys };
     let kty = *r.pick(&ktys); let xty = *r.pick(&xtys);
     let nulls: Vec<u8> = o.get("nulls").unwrap_or("0,0,10,50,50,100").split(',').filter_map(|s| s.parse().ok()).collect();
     let (k0n, x0n, k1n, y1n) = (*r.pick(&nulls), *r.pick(&nulls), *r.pick(&nulls), *r.pick(&nulls));
@@ -74,8 +77,10 @@ fn gen_tables(r: &mut Rng, o: &Opts) -> (Catalog, String) {
 fn gen_form(r: &mut Rng, o: &Opts) -> Form {
     let kinds: Vec<&str> = o.get("kinds").unwrap_or("in,in,in,exists,exists,scalar_agg,scalar_agg,scalar_row").split(',').collect();
     let kind = match *r.pick(&kinds) { "in" => "in", "exists" => "exists", "scalar_agg" => "scalar_agg", _ => "scalar_row" };
-    let allow_noneq = o.get_usize("noneq", 0) == 1;
-    let allow_unq = o.get_usize("unq", 0) == 1;
+    // non-equality correlation (`w1 <op> t0.v0`): on by default for IN and EXISTS; a scalar aggregate only with `noneq_scalar=1`
+    // (the rule then groups by the non-equality column and duplicates outer rows — not mirrored by the model)
+    let allow_noneq = o.get_usize("noneq", 1) == 1;
+    let allow_unq = o.get_usize("unq", 1) == 1;
     let places: Vec<&str> = o.get("places").unwrap_or("where,where,where,and,or,select").split(',').collect();
     let place = match *r.pick(&places) { "where" => "where", "and" => "and", "or" => "or", _ => "select" };
     let mut f = Form { kind, neg: r.chance(1, 2), corr_eq: false, corr_noneq: None, flip: r.chance(1, 3), local: "none", place, agg: AggFn::CountStar,
@@ -93,7 +98,7 @@ fn gen_form(r: &mut Rng, o: &Opts) -> Form {
         }
         _ => { f.neg = false; f.row_pick = *r.pick(&["const", "const", "all", "corr_id", "corr_k"]); f.corr_eq = false; }
     }
-    if allow_noneq && kind != "scalar_row" && r.chance(1, 3) {
+    if allow_noneq && (kind == "in" || kind == "exists" || (kind == "scalar_agg" && o.get_usize("noneq_scalar", 0) == 1)) && r.chance(1, 4) {
         f.corr_noneq = Some(*r.pick(&[BinOp::Lt, BinOp::Gt, BinOp::Le, BinOp::Ge, BinOp::Ne]));
         if r.chance(1, 3) { f.corr_eq = false; }
     }
@@ -182,9 +187,12 @@ fn tags_of(f: &Form, rules: &str, desc: &str, cfg: &str) -> Vec<String> {
 }
 
 /// the two cases (production rules / decorrelation rules removed) of one statement
-fn cases_of(cat: &Catalog, f: &Form, q: &QueryExpr, base_cfg: &str, desc: &str, extra_tags: &[String]) -> Vec<(Value, Value)> {
+fn cases_of(cat: &Catalog, f: &Form, q: &QueryExpr, base_cfg: &str, desc: &str, extra_tags: &[String], noneq_exists: bool) -> Vec<(Value, Value)> {
     let mut out = vec![];
     for rules in ["default", "nodecorr"] {
+        // EXISTS with an equality AND a non-equality correlation, production rules: the rule hands the non-equality to the
+        // Semi/Anti hash join as a filter, and that operator's filtered probe is C22's finding — not run unless asked for
+        if rules == "default" && f.kind == "exists" && f.corr_eq && f.corr_noneq.is_some() && (f.place == "where" || f.place == "and") && !noneq_exists { continue; }
         let name = if rules == "default" { base_cfg.to_string() } else { format!("{}{}", base_cfg, NODECORR) };
         let cfg = match ExecCfg::parse(&name) { Some(c) => c, None => continue };
         let mut tags = tags_of(f, rules, desc, base_cfg);
@@ -207,31 +215,60 @@ fn cases_of(cat: &Catalog, f: &Form, q: &QueryExpr, base_cfg: &str, desc: &str, 
 
 fn ival(v: i64) -> Val { Val::I(v) }
 
-/// hand-made minimal cases, one per listed finding (`--opt witness=1`)
+/// hand-made minimal cases, one per listed finding (`--opt witness=1`); corpus/C23/known-F*.jsonl are made from these
 fn witness_cases() -> Vec<(Value, Value)> {
     let nl = || Val::Null;
-    let table = |name: &str, sfx: &str, rows: Vec<Vec<Val>>| TableSpec { name: name.into(),
-        cols: vec![mkcol(&format!("id{}", sfx), ColTy::I64, 0, true), mkcol(&format!("{}{}", if sfx == "0" { "k" } else { "k" }, sfx), ColTy::I64, 50, false),
-                   mkcol(&format!("{}{}", if sfx == "0" { "x" } else { "y" }, sfx), ColTy::I64, 50, false), mkcol(&format!("{}{}", if sfx == "0" { "v" } else { "w" }, sfx), ColTy::I64, 0, false)],
-        cuts: if rows.is_empty() { vec![] } else { vec![rows.len()] }, rows };
+    let i = ival;
+    let table = |t: usize, xty: ColTy, rows: Vec<Vec<Val>>, cuts: Vec<usize>| {
+        let (n, k, x, v) = if t == 0 { ("id0", "k0", "x0", "v0") } else { ("id1", "k1", "y1", "w1") };
+        TableSpec { name: format!("t{}", t), cols: vec![mkcol(n, ColTy::I64, 0, true), mkcol(k, ColTy::I64, 50, false), mkcol(x, xty, 50, false), mkcol(v, ColTy::I64, 0, false)], cuts, rows }
+    };
     let base = Form { kind: "in", neg: false, corr_eq: false, corr_noneq: None, flip: false, local: "none", place: "where", agg: AggFn::CountStar, cmp: BinOp::Eq,
                       zero_lhs: false, row_pick: "const", unq: false, narrow: false };
     let mut out = vec![];
-    let mut push = |id: &str, rules: &str, t0: TableSpec, t1: TableSpec, f: Form| {
+    let mut push = |id: &str, rules: &str, cfg: &str, t0: TableSpec, t1: TableSpec, f: Form| {
         let cat = Catalog { tables: vec![t0, t1] };
         let mut r = Rng::new(1);
         let q = build_query(&cat, &f, &mut r);
-        for (c, i) in cases_of(&cat, &f, &q, "mem1", "witness", &[format!("witness:{}", id)]) {
-            if c["c23"]["rules"].as_str() == Some(rules) { out.push((c, i)); }
+        for (c, im) in cases_of(&cat, &f, &q, cfg, "witness", &[format!("witness:{}", id)], true) {
+            if c["c23"]["rules"].as_str() == Some(rules) { out.push((c, im)); }
         }
     };
-    // t = u = {1, 2, NULL}
-    let t = || table("t0", "0", vec![vec![ival(0), ival(1), ival(1), ival(1)], vec![ival(1), ival(2), ival(2), ival(2)], vec![ival(2), nl(), nl(), ival(3)]]);
-    let u = || table("t1", "1", vec![vec![ival(0), ival(1), ival(1), ival(1)], vec![ival(1), ival(2), ival(2), ival(2)], vec![ival(2), nl(), nl(), ival(3)]]);
-    // F1  decorrelated NOT IN = plain anti join
-    push("C23-F1", "default", t(), u(), Form { neg: true, ..base.clone() });
-    // F2  row-by-row NOT IN / IN: NULL elements skipped, NULL operand FALSE (under OR)
-    push("C23-F2", "default", t(), u(), Form { neg: true, place: "or", ..base.clone() });
+    // t = u = {1, 2, NULL} (A.14)
+    let t = || table(0, ColTy::I64, vec![vec![i(0), i(1), i(1), i(1)], vec![i(1), i(2), i(2), i(2)], vec![i(2), nl(), nl(), i(3)]], vec![3]);
+    let u = || table(1, ColTy::I64, vec![vec![i(0), i(1), i(1), i(1)], vec![i(1), i(2), i(2), i(2)], vec![i(2), nl(), nl(), i(3)]], vec![3]);
+    // F1  decorrelated NOT IN = plain anti join: keeps the NULL row (must return nothing)
+    push("C23-F1", "default", "mem1", t(), u(), Form { neg: true, ..base.clone() });
+    // F2  row-by-row NOT IN in the SELECT list: FALSE / TRUE where the answer is NULL
+    push("C23-F2", "default", "mem1", t(), u(), Form { neg: true, place: "select", ..base.clone() });
+    // F3  A.26: correlated scalar subquery in the SELECT list, outer column written unqualified and not otherwise selected
+    push("C23-F3", "default", "mem1", t(), u(), Form { kind: "scalar_agg", agg: AggFn::Max, corr_eq: true, place: "select", unq: true, narrow: true, ..base.clone() });
+    // F5  IN with a non-equality correlation only: the predicate is removed from the subquery and lost
+    push("C23-F5", "default", "mem1", table(0, ColTy::I64, vec![vec![i(0), i(1), i(1), i(5)]], vec![1]), table(1, ColTy::I64, vec![vec![i(0), i(1), i(1), i(7)]], vec![1]),
+         Form { corr_noneq: Some(BinOp::Lt), ..base.clone() });
+    // F6  IN with an equality correlation on a column the subquery does not output: the correlation is lost
+    push("C23-F6", "default", "mem1", table(0, ColTy::I64, vec![vec![i(0), i(1), i(7), i(1)]], vec![1]), table(1, ColTy::I64, vec![vec![i(0), i(2), i(7), i(1)]], vec![1]),
+         Form { corr_eq: true, ..base.clone() });
+    // F7  count bug: 0 = (SELECT COUNT(*) … correlated) over an outer row without partner
+    push("C23-F7", "default", "mem1", table(0, ColTy::I64, vec![vec![i(0), i(1), i(1), i(0)], vec![i(1), i(2), i(1), i(0)]], vec![2]), table(1, ColTy::I64, vec![vec![i(0), i(1), i(1), i(1)]], vec![1]),
+         Form { kind: "scalar_agg", agg: AggFn::CountStar, cmp: BinOp::Eq, corr_eq: true, ..base.clone() });
+    // F8  correlated scalar subquery with two rows: NULL instead of the cardinality error
+    push("C23-F8", "nodecorr", "mem1", table(0, ColTy::I64, vec![vec![i(0), i(1), i(1), i(0)]], vec![1]), table(1, ColTy::I64, vec![vec![i(0), i(1), i(1), i(1)], vec![i(1), i(1), i(2), i(1)]], vec![2]),
+         Form { kind: "scalar_row", row_pick: "corr_k", place: "select", ..base.clone() });
+    // F9  only batches[0] of the subquery result is read: first batch empty, the row sits in the second
+    push("C23-F9", "default", "memb", table(0, ColTy::I64, vec![vec![i(0), i(1), i(5), i(0)]], vec![1]), table(1, ColTy::I64, vec![vec![i(0), i(1), i(4), i(1)], vec![i(1), i(1), i(5), i(1)]], vec![1, 1]),
+         Form { kind: "scalar_row", row_pick: "const", place: "select", ..base.clone() });
+    // F10 result column typed from the first outer row: first row has no partner (NULL) ⇒ the whole batch is NULL
+    push("C23-F10", "nodecorr", "mem1", table(0, ColTy::I64, vec![vec![i(0), i(1), i(1), i(9)], vec![i(1), i(1), i(1), i(0)]], vec![2]), table(1, ColTy::I64, vec![vec![i(0), i(1), i(5), i(1)]], vec![1]),
+         Form { kind: "scalar_row", row_pick: "corr_id", place: "select", ..base.clone() });
+    // F11 correlated IN evaluated row by row (under OR): "Column not found"
+    push("C23-F11", "default", "mem1", t(), u(), Form { corr_eq: true, place: "or", ..base.clone() });
+    // F12 semi-join reduction multiplies COUNT by the number of outer rows with the same key
+    push("C23-F12", "default", "mem1", table(0, ColTy::I64, vec![vec![i(0), i(1), i(1), i(2)], vec![i(1), i(1), i(1), i(2)]], vec![2]), table(1, ColTy::I64, vec![vec![i(0), i(1), i(1), i(1)]], vec![1]),
+         Form { kind: "scalar_agg", agg: AggFn::CountStar, cmp: BinOp::Eq, corr_eq: true, place: "and", ..base.clone() });
+    // F13 row-by-row IN refuses DATE operands
+    push("C23-F13", "default", "mem1", table(0, ColTy::Date, vec![vec![i(0), i(1), Val::D(18262), i(1)]], vec![1]), table(1, ColTy::Date, vec![vec![i(0), i(1), Val::D(18262), i(1)]], vec![1]),
+         Form { place: "select", ..base.clone() });
     out
 }
 
@@ -244,7 +281,7 @@ pub fn main(o: &Opts) {
     if let Some(sql) = o.get("probe") {
         // `--opt probe="SELECT … FROM t0 …"`: the generated tables of this seed, the statement under each configuration
         let mut r = Rng::new(o.seed ^ 0xC23);
-        let (cat, desc) = gen_tables(&mut r, o);
+        let (cat, desc) = gen_tables(&mut r, o, false);
         for t in &cat.tables {
             eprintln!("{} {:?} rows={} cuts={:?}", t.name, t.cols.iter().map(|c| format!("{}:{}", c.name, c.cty.name())).collect::<Vec<_>>(), t.rows.len(), t.cuts);
             if o.get_usize("show", 0) == 1 { for row in &t.rows { eprintln!("  {:?}", row); } }
@@ -264,15 +301,15 @@ pub fn main(o: &Opts) {
     let mut n = 0usize; let mut k = 0usize;
     while n < o.cases {
         let mut cr = r.fork();
-        let (cat, desc) = gen_tables(&mut cr, o);
         let f = gen_form(&mut cr, o);
+        let (cat, desc) = gen_tables(&mut cr, o, f.kind == "scalar_row");
         let q = build_query(&cat, &f, &mut cr);
         let mut base = cfg_names[k % cfg_names.len()].clone(); k += 1;
         // Parquet only for the IN / EXISTS forms: over Parquet the decorrelated scalar path trips a scan-schema defect
         // ("number of columns must match number of fields") that is not a subquery defect
         if base.starts_with("pq") && f.kind.starts_with("scalar") { base = "memb".into(); }
         let base = &base;
-        for (case, imp) in cases_of(&cat, &f, &q, base, &desc, &[]) {
+        for (case, imp) in cases_of(&cat, &f, &q, base, &desc, &[], o.get_usize("noneq_exists", 0) == 1) {
             if n < o.cases { emit(case, imp); n += 1; }
         }
     }
